@@ -599,6 +599,13 @@ func apply(w *walk.Worker, ctx sdk.Context, e *graph.Edge, path []*graph.Edge, g
 			fail("C12", "panic", "dist.import.panic", "InitGenesis of the exported state panicked: "+p, nil, p)
 			return ctx, fs, true
 		}
+		if p := env.Try(func() {
+			if bz3, err3 := cdc.MarshalJSON(cfedistributor.ExportGenesis(ctx, k)); err3 != nil || string(bz3) != string(bz) {
+				fail("C12", "mismatch", "dist.reexport.differs", "the genesis exported after import differs from the one that was imported", string(bz), string(bz3))
+			}
+		}); p != "" {
+			fail("C12", "panic", "dist.reexport.panic", "ExportGenesis after import panicked: "+p, nil, p)
+		}
 	}
 	o := s.project(ctx)
 	if o.Err != "" {
